@@ -113,6 +113,8 @@ def check_C01(tier, seed):
         F.model_check(out, "CompilerTables.tla", mcfg)
     if tier == "thorough":
         F.model_check(out, "CompilerTables.tla", "CompilerTables_D2inc.cfg", expect_violation=True)
+    # unbounded: irreflexivity / asymmetry of MoreSpecific and uniqueness of the winner, by the TLA+ proof system
+    F.tlaps_check(out, "DispatchProofs.tla")
     for cfg, n, ar in universes:
         regs = F.gen_registries(cfg, out)
         scs = scripts_from_universe(regs, n, ar, rng, policies, cfg.replace(".cfg", ""), ("T", "CT"))
